@@ -169,6 +169,7 @@ class Evaluator:
         self.inline_methods_on_ctor = inline_methods_on_ctor
         self.self_inline = set(self_inline)
         self.known_len_fields = {}  # attribute name -> static length (verified separately by a rule)
+        self.canon_kw_functions = set()  # dotted names of repo functions whose keyword calls are rewritten positionally
         # private helpers (leading underscore) of the repo are inlined by default, so that extracting a helper does not
         # change the symbolic value; the ones rules treat as atoms are listed here
         self.auto_inline_private = True
@@ -865,6 +866,20 @@ class Evaluator:
         return self.expr(e.value, fr)
 
     def comp(self, kind, e, elts, fr):
+        # a single unconditional generator over a sequence of statically known length (a literal, or a field whose length a rule has
+        # declared, e.g. CondTr.trs) is unrolled: `[f(t) for t in self.trs]` is the list `[f(self.trs[0]), f(self.trs[1])]`
+        if kind in ("list", "gen", "tuple") and len(e.generators) == 1 and not e.generators[0].ifs and len(elts) == 1:
+            probe = Frame(self, fr.module, fr.qual, cls=fr.cls, parent=fr)
+            probe.guards = fr.guards
+            items = self.known_items(self.expr(e.generators[0].iter, probe))
+            if items is not None:
+                out = []
+                for it_ in items:
+                    sub = Frame(self, fr.module, fr.qual, cls=fr.cls, parent=fr)
+                    sub.guards = fr.guards
+                    self.assign_target(e.generators[0].target, it_, sub, e)
+                    out.append(self.expr(elts[0], sub))
+                return ("list" if kind == "list" else "tuple", tuple(out))
         sub = Frame(self, fr.module, fr.qual, cls=fr.cls, parent=fr)
         sub.guards = fr.guards
         gens = []
@@ -917,9 +932,13 @@ class Evaluator:
         if fn[0] != "name" or not kwargs or any(k is None for k, _ in kwargs) or any(a[0] == "star" for a in args):
             return args, kwargs
         r = self.p.lookup(fn[1])
-        if r is None or r[0] != "class":
+        if r is not None and r[0] == "func" and isinstance(r[1], ast.FunctionDef) and not r[1].args.posonlyargs and fn[1] in self.canon_kw_functions:
+            # a repo-local function a rule has asked for: f(a, b) and f(x=a, y=b) are one term (parameters in signature order)
+            fields = [a.arg for a in r[1].args.args]
+        elif r is None or r[0] != "class":
             return args, kwargs
-        fields = self.p.dataclass_fields(r[1])
+        else:
+            fields = self.p.dataclass_fields(r[1])
         if not fields:
             return args, kwargs
         kw = dict(kwargs)
@@ -1121,7 +1140,15 @@ class Evaluator:
             r = self.apply_closure(f, (carry, x), ())
             rec["body_summary"] = getattr(self, "last_closure_summary", None)
         else:
-            r = ("call", f, (carry, x), ())
+            # a scan body given as functools.partial(...) or as a module-level (private) function is applied like any other call
+            r = None
+            if f[0] in ("partial", "name") and len(self._inlining) < self.max_inline_depth + 2:
+                try:
+                    r = self.call_term(f, (carry, x), (), fr, None)
+                except Exception:
+                    r = None
+            if r is None:
+                r = ("call", f, (carry, x), ())
         if r is None:
             return None
         rec["body"] = r
